@@ -183,6 +183,30 @@ def read_script(rng):
     return "script readv " + " ".join(toks)
 
 
+def pause_block(rng):
+    """Pause / resume requests issued back to back from ANOTHER thread, i.e. before the loop has processed the first
+    of them (the harness joins the thread; the loop only runs at the next `iter`): stop,start / start,stop / longer
+    runs, on a reading or a paused connection; then the peer writes and the loop iterates.  The request made last must
+    be the state the connection ends in: after `stopRead(); startRead();` the peer's bytes are delivered."""
+    lines = []
+    if rng.random() < 0.3:
+        lines += ["act %s stopRead" % rng.choice("LF"), "iter"]        # start from a paused connection
+    r = rng.random()
+    if r < 0.55:
+        seq = ["stopRead", "startRead"]
+    elif r < 0.75:
+        seq = ["startRead", "stopRead"]
+    else:
+        seq = [rng.choice(["stopRead", "startRead"]) for _ in range(rng.choice([3, 4]))]
+    lines += ["act F %s" % a for a in seq]
+    if rng.random() < 0.5:
+        lines.append("iter")
+    lines += ["peerWrite g:%d:%d" % (rng.randrange(1 << 30), rng.choice([1, 16, 100, 5000])), "iter", "iter"]
+    if seq[-1] == "stopRead":
+        lines += ["act %s startRead" % rng.choice("LF"), "iter", "iter"]
+    return lines
+
+
 def outlive_block(rng, mark):
     """Functors the connection queued for itself are still pending when the owner destroys it (`ownerDestroy`: what
     ~TcpServer does on the connection's loop; the queued functors hold weak references, so the object goes at once):
@@ -203,7 +227,7 @@ def outlive_block(rng, mark):
     return lines + ["ownerDestroy", "iter", "iter"]
 
 
-def random_case(rng, maxlen=40, faults=True, foreign=True, closes=True, profile="mixed", crossing=0.22, rebind=0.12, hookfree=0.0, outlive=0.06):
+def random_case(rng, maxlen=40, faults=True, foreign=True, closes=True, profile="mixed", crossing=0.22, rebind=0.12, hookfree=0.0, outlive=0.06, pause=0.08):
     """one history: header ops, then a random mix; mostly-valid (the connection is usually
     established first and kept up for a while).  `crossing` / `rebind`: share of the histories that contain a
     `crossing_block` / `rebind_block` at a random position; `hookfree`: share of the histories without callback
@@ -211,6 +235,7 @@ def random_case(rng, maxlen=40, faults=True, foreign=True, closes=True, profile=
     scenario = rng.random()
     want_cross = scenario < crossing
     want_rebind = crossing <= scenario < crossing + rebind
+    want_pause = crossing + rebind <= scenario < crossing + rebind + pause
     no_hooks = (not want_cross) and rng.random() < hookfree
     mark = rng.choice([1, 10, 100, 1000, 4096]) if want_cross else rng.choice(MARKS)
     both = want_cross or want_rebind
@@ -223,10 +248,10 @@ def random_case(rng, maxlen=40, faults=True, foreign=True, closes=True, profile=
     n = rng.randrange(3, maxlen)
     if both:
         n = rng.randrange(0, max(1, maxlen // 2))
-    block_at = rng.randrange(0, n + 1) if both else -1
+    block_at = rng.randrange(0, n + 1) if (both or want_pause) else -1
     for j in range(n + 1):
         if j == block_at:
-            lines += crossing_block(rng, mark, foreign) if want_cross else rebind_block(rng, mark)
+            lines += crossing_block(rng, mark, foreign) if want_cross else (pause_block(rng) if want_pause else rebind_block(rng, mark))
         if j == n:
             break
         k = rng.random()
